@@ -17,7 +17,7 @@ CHECKS = {
          "Observer sits in the resolver (Builder::with_resolver); ScriptedRng mode only; caller-chosen nonces/keys (stateless mode, manual rekey to equal keys, the sending-nonce hook) are outside the alphabet."),
  "C07": ("fault_enumeration", "E1 fault product (differential) + E2 seqmc",
          "exhaustive enumeration of failure points and causes along the honest run (deviation bound 1, 2 on base patterns) with a differential oracle against the run without the failing calls; explicit-state BFS for scattered failures",
-         "Every failure cause the API can take (undersized buffers at every token boundary / every length in thorough, over-long payloads, out-of-turn calls, late PSKs, every bit-flip position (stride 8 quick), truncations, extensions, substitutions, transport failures) at every message of every handshake name: the continuation must be byte-identical to the clean run, every other step Ok, no public getter may change across the failed call.",
+         "Every failure cause the API can take (undersized buffers at every token boundary / every length in thorough, over-long payloads, out-of-turn calls, late PSKs, every bit-flip position (stride 8 quick), truncations, extensions, substitutions, transport failures including calls refused at an exhausted counter) at every message of every handshake name: the continuation must be byte-identical to the clean run, every other step Ok, no public getter may change across the failed call.",
          "Fixed ephemerals make runs pure functions of the call sequence; alterations the receiver accepts are not failed calls (C03's business)."),
  "C09": ("model_checking", "E2 seqmc + verif-hooks nonce accessor + RecordingCipher",
          "explicit-state BFS over transport call sequences with nonces placed at 0 and 2^64-3..2^64-1, compared with two u64 counters per endpoint; cipher log inspected for the reserved nonce",
